@@ -1406,9 +1406,9 @@ theorem alias_state_defect_witness :
     norm_num
 
 /-- an LTI object has no memory: whatever happened before (any clock value), the same `(x, u)` gives the same outputs -/
-theorem lti_history_independent (S : LinSys ℝ) (h : S.kind = .lti) (c c' : Int) (x u : DVec ℝ) :
+theorem lti_history_independent (S : LinSys ℝ) (h : S.kind = .lti) (hp : S.periodic = false) (c c' : Int) (x u : DVec ℝ) :
     linForward S c x u = linForward S c' x u := by
-  simp [linForward, sliceIdx, h]
+  simp [linForward, sliceIdx, h, hp]
 
 /-- the outputs of an NLS call depend on `(x, u)` and the clock only — not on earlier calls, on the reference point,
 or on which semantics of the reference point is in force -/
